@@ -70,7 +70,7 @@ def include_is_splicing_contract(block, resolver, tok, names):
 
 
 # ------------------------------------------------------------------------------------------------ spaces (any number, every gap)
-def scan_statement_contract(s, name, text, expected_types, expected_values):
+def scan_statement_contract(s, name, text, expected_types, expected_values, fold_case=False):
     """The real Scanner.scan on the text of ONE statement in which every gap where the statement allows spaces (indentation, after the
     mnemonic / size suffix, inside brackets, around operators and commas, trailing) holds ANY number of them: the token list -- types and
     texts -- is the one of the densely written statement.  (Spaces therefore cannot change anything downstream of the scanner.)"""
@@ -82,5 +82,9 @@ def scan_statement_contract(s, name, text, expected_types, expected_values):
     for t in toks:
         check("same_token_type", t.type == expected_types[i])
         if expected_values[i] is not None:
-            check("same_token_text", t.value == expected_values[i])
+            if fold_case:
+                # letters of the text may be in either case: the token texts agree up to case (mnemonic, suffix, index and hexadecimal digits are folded downstream)
+                check("same_token_text_up_to_case", t.value.lower() == expected_values[i])
+            else:
+                check("same_token_text", t.value == expected_values[i])
         i = i + 1
